@@ -130,17 +130,18 @@ Definition s_final (w : world) : sexp :=
 Definition trace_of (w : world) : trace := rev (out w).
 
 (* the ghost history, oldest first, for the comparison with the implementation's call history:
-   (t 0 entry dest) = queue_send, (t 1 dest entries) = a collector hands over, (t 2 entries dest) = send_sd *)
+   (t 0 entry dest) = queue_send, (t 1 dest entries) = a collector hands over, (t 2 entries dest) = send_sd,
+   (t 3 store address key ttl) = TimedStore.refresh stores the entry, (t 4 store address key) = TimedStore._expired removes it *)
+Definition s_store_id (st : store_id) : sexp := match st with SFound => L [] | SSubs i => L [A i] end.
 Definition s_gev (p : N * gev) : sexp :=
   match snd p with
   | GQueue e d => L [A (fst p); A 0; s_entry e; s_dest d]
   | GFlush d es => L [A (fst p); A 1; s_dest d; slist s_entry es]
   | GSend es d _ _ => L [A (fst p); A 2; slist s_entry es; s_dest d]
-  | _ => L []
+  | GRefresh st a k ttl => L [A (fst p); A 3; s_store_id st; A a; s_key k; A ttl]
+  | GExpire st a k => L [A (fst p); A 4; s_store_id st; A a; s_key k]
   end.
-(* the TimedStore part of the history (GRefresh / GExpire) is not compared with the implementation's call history *)
-Definition s_glog (w : world) : sexp :=
-  slist s_gev (filter (fun p => match snd p with GRefresh _ _ _ _ | GExpire _ _ _ => false | _ => true end) (rev (glog w))).
+Definition s_glog (w : world) : sexp := slist s_gev (rev (glog w)).
 
 Definition run_op (arg : sexp) : option sexp :=
   let? sc := d_scenario arg in
